@@ -283,7 +283,7 @@ Lemma keys_get {V W} (d1 : list (text * V)) : forall (d2 : list (text * W)) k,
   map fst d1 = map fst d2 -> d_get text_eqb d1 k <> None -> d_get text_eqb d2 k <> None.
 Proof.
   induction d1 as [|[k1 v1] d1 IH]; intros [|[k2 v2] d2] k H; cbn [map fst] in H; try discriminate;
-    [intro G; exact G|].
+    [intro G; exfalso; apply G; reflexivity|].
   inversion H as [[Hk Ht]]. subst k2. cbn [d_get]. destruct (text_eqb k1 k); [intros _; discriminate|]. apply IH. exact Ht.
 Qed.
 
@@ -398,3 +398,488 @@ Proof.
     apply FInvP_del. exact HI.
   - destruct (nstep (f_node f) nl) as [n' outs]. exact HI.
 Qed.
+
+(* ---- handle_assembled_query's packets[0] ---- *)
+Definition found_of (msgs : list (bytes * (qmsg * Z))) (addr : text) (packets : list lmsg) : list (qmsg * Z) :=
+  flat_map (fun m => match d_get bytes_eqb msgs (mkey addr (lm_data m)) with Some x => [x] | None => [] end) packets.
+
+Lemma found_nonempty msgs addr packets :
+  packets <> [] -> (forall m, In m packets -> d_get bytes_eqb msgs (mkey addr (lm_data m)) <> None) ->
+  found_of msgs addr packets <> [].
+Proof.
+  destruct packets as [|m rest]; [intro H; contradiction|]. intros _ H. unfold found_of. cbn [flat_map].
+  destruct (d_get bytes_eqb msgs (mkey addr (lm_data m))) as [x|] eqn:G; [discriminate|].
+  exfalso. apply (H m (or_introl eq_refl)). exact G.
+Qed.
+
+Lemma found_values msgs addr packets x : In x (found_of msgs addr packets) -> exists k, In (k, x) msgs.
+Proof.
+  unfold found_of. intro H. apply in_flat_map in H as (m & _ & Hx).
+  destruct (d_get bytes_eqb msgs (mkey addr (lm_data m))) as [y|] eqn:G; [|destruct Hx].
+  destruct Hx as [<-|[]]. eapply bget_In. exact G.
+Qed.
+
+Lemma respond_found f ls' msgs' addr port packets now rq rd qm id rest :
+  found_of msgs' addr packets = (qm, id) :: rest ->
+  respond f ls' msgs' addr port packets now rq rd =
+  let '(n', outs) := nstep (f_node f) (LQuery now (qm :: map fst rest) id addr port rq rd) in
+  ({| f_node := n'; f_ls := ls'; f_msgs := msgs' |}, send_gate outs).
+Proof. intro E. unfold respond. fold (found_of msgs' addr packets). rewrite E. reflexivity. Qed.
+
+(* a timer label is legitimate when the timer is pending (it is cancelled when the packets are popped) *)
+Definition timer_pending (f : fnode) (addr : text) : Prop := d_get text_eqb (ls_timers (f_ls f)) addr <> None.
+
+Definition wire_label (f : fnode) (l : flabel) : Prop :=
+  match l with
+  | FDatagram data _ _ _ _ _ _ => Forall is_byte data
+  | FTimer addr _ _ _ _ => timer_pending f addr
+  | FNode _ => False
+  end.
+
+(* what a datagram / timer label can let out: nothing (the record manager is silent), or what the encoder gate makes of
+   the sends of ONE query-handler label on a NON-EMPTY list of decoded packets that all satisfy [Q].
+   The IndexError of `packets[0]` and the decoder branch are not among the possibilities. *)
+Inductive front_out (Q : qmsg * Z -> Prop) (f : fnode) (l : flabel) : Prop :=
+| FO_silent : snd (fstep f l) = [] -> front_out Q f l
+| FO_query now qm id rest addr port rq rd :
+    Forall Q ((qm, id) :: rest) ->
+    snd (fstep f l) = send_gate (snd (nstep (f_node f) (LQuery now (qm :: map fst rest) id addr port rq rd))) ->
+    front_out Q f l.
+
+Lemma respond_out (Q : qmsg * Z -> Prop) f l ls' msgs' addr port packets now rq rd :
+  snd (fstep f l) = snd (respond f ls' msgs' addr port packets now rq rd) ->
+  packets <> [] -> (forall m, In m packets -> d_get bytes_eqb msgs' (mkey addr (lm_data m)) <> None) ->
+  (forall k x, In (k, x) msgs' -> Q x) -> front_out Q f l.
+Proof.
+  intros E Hne Hin HQ.
+  pose proof (found_nonempty msgs' addr packets Hne Hin) as Hf.
+  destruct (found_of msgs' addr packets) as [|[qm id] rest] eqn:Ef; [contradiction|].
+  rewrite (respond_found f ls' msgs' addr port packets now rq rd qm id rest Ef) in E.
+  apply (FO_query Q f l now qm id rest addr port rq rd).
+  - apply Forall_forall. intros x Hx. rewrite <- Ef in Hx. apply found_values in Hx as [k Hk]. exact (HQ k x Hk).
+  - rewrite E. destruct (nstep (f_node f) _) as [n' outs]. reflexivity.
+Qed.
+
+Lemma fstep_wire_cases (Q : qmsg * Z -> Prop) f l : FInv f -> wire_label f l ->
+  (forall k x, In (k, x) (f_msgs f) -> Q x) ->
+  (forall data addr port now tc rq rd, l = FDatagram data addr port now tc rq rd ->
+     Q (qmsg_of (parse data now None FRAMES) now, m_id (parse data now None FRAMES))) ->
+  front_out Q f l.
+Proof.
+  intros [HI1 HI2] Hl HQ Hnew.
+  destruct l as [data addr port now tc rq rd|addr port now rq rd|nl]; [| |destruct Hl]; cbn [wire_label] in Hl.
+  - specialize (Hnew data addr port now tc rq rd eq_refl).
+    destruct (Z.of_nat (length data) >? C_MAX_MSG_ABSOLUTE) eqn:Esz.
+    { apply FO_silent. cbn [fstep]. rewrite Esz. reflexivity. }
+    destruct (is_duplicate (f_ls f) data now) eqn:Edup.
+    { apply FO_silent. cbn [fstep]. rewrite Esz, Edup. reflexivity. }
+    pose proof (fstep_datagram_unfold f data addr port now tc rq rd Hl ltac:(lia) Edup) as EU. cbv zeta in EU.
+    set (p := parse data now None FRAMES) in *.
+    set (msgs' := d_set bytes_eqb (f_msgs f) (mkey addr data) (qmsg_of p now, m_id p)) in *.
+    destruct (datagram (f_ls f) (lmsg_of data p) addr now (nonempty (g_services (n_reg (f_node f)))) tc) as [ls' o] eqn:E.
+    apply datagram_cases in E as [_ [(D1 & D2 & D3)|[(-> & D1 & D2)|(-> & D1 & D2)]]].
+    + destruct o; try (apply FO_silent; rewrite EU; reflexivity).
+      exfalso. eapply D3. reflexivity.
+    + apply (respond_out Q f _ ls' msgs' addr port (deferred_of (f_ls f) addr ++ [lmsg_of data p]) now rq rd).
+      * rewrite EU. reflexivity.
+      * intro E0. apply app_eq_nil in E0 as [_ E0]. discriminate.
+      * intros m Hm. apply in_app_or in Hm as [Hm|[<-|[]]].
+        -- unfold deferred_of in Hm. destruct (d_get text_eqb (ls_deferred (f_ls f)) addr) as [l0|] eqn:G; [|destruct Hm].
+           apply tget_In in G. unfold msgs'. apply bset_get_mono. exact (proj2 (HI1 addr l0 G) m Hm).
+        -- cbn [lm_data lmsg_of]. unfold msgs'. rewrite bset_get_same. discriminate.
+      * intros k x Hin. unfold msgs' in Hin. apply bset_In in Hin as [Hin| ->]; [exact (HQ k x Hin)|exact Hnew].
+    + apply FO_silent. rewrite EU. reflexivity.
+  - unfold timer_pending in Hl.
+    pose proof (keys_get _ _ addr HI2 Hl) as Hd.
+    destruct (d_get text_eqb (ls_deferred (f_ls f)) addr) as [l0|] eqn:G; [|contradiction].
+    pose proof (tget_In _ _ _ G) as Hin0. destruct (HI1 addr l0 Hin0) as [Hne Hall].
+    apply (respond_out Q f _ (set_deferred (f_ls f) (d_del text_eqb (ls_deferred (f_ls f)) addr) (d_del text_eqb (ls_timers (f_ls f)) addr))
+             (f_msgs f) addr port l0 now rq rd).
+    + cbn [fstep]. unfold respond_query. rewrite G. reflexivity.
+    + exact Hne.
+    + exact Hall.
+    + exact HQ.
+Qed.
+
+(* every output of a query step is a send *)
+Lemma lquery_outs n now msgs id addr port rq rd o :
+  In o (snd (nstep n (LQuery now msgs id addr port rq rd))) ->
+  exists a, In a (handle_assembled_query (n_reg n) (n_cache n) msgs id addr port) /\
+    match a with
+    | AUnicast ad po m => o = OSend now (Some (ad, po)) m
+    | AMulticast m => o = OSend now None m
+    | _ => False
+    end.
+Proof.
+  destruct (nstep_LQuery_frame n now msgs id addr port rq rd) as (_ & _ & E). rewrite E. clear E.
+  intro H. assert (H' : In o (flat_map (act_out now) (handle_assembled_query (n_reg n) (n_cache n) msgs id addr port))).
+  { unfold gate in H. destruct (n_done n); [apply filter_In in H; apply H|exact H]. }
+  apply in_flat_map in H' as (a & Ha & Ho). exists a. split; [exact Ha|].
+  destruct a; cbn [act_out] in Ho; try (destruct Ho as [<-|[]]; reflexivity); destruct Ho.
+Qed.
+
+Lemma send_gate_raise outs e : In (ORaise e) (send_gate outs) ->
+  In (ORaise e) outs \/
+  exists t dest m, In (OSend t dest m) outs /\ packets m = Raise e /\ (e = NamePartTooLong -> dest = None).
+Proof.
+  unfold send_gate. intro H. apply in_flat_map in H as (o & Ho & He).
+  destruct o as [t dest m|ms|e'|  |names|names rs| ]; try (destruct He as [He|[]]; try discriminate He).
+  - right. exists t, dest, m. split; [exact Ho|].
+    destruct (packets m) as [ps|e0] eqn:Ep; [destruct He as [He|[]]; discriminate He|].
+    destruct e0; try (destruct He as [He|[]]; inversion He; subst; split; [reflexivity|intro Hc; discriminate Hc]).
+    destruct dest as [d|]; [destruct He|]. destruct He as [He|[]]. inversion He; subst. split; reflexivity.
+  - left. inversion He; subst. exact Ho.
+Qed.
+
+(* 5 (statement): under the front invariant, an IndexError coming out of a datagram or a (pending) timer label can only
+   have been raised by the encoder - `packets[0]` on an empty list never happens.  For a timer label whose address has
+   no deferred packets the model does emit it (timer_not_pending_raises below): that is the side condition. *)
+Theorem no_index_error : forall f l, FInv f -> wire_label f l ->
+  In (ORaise IndexError) (snd (fstep f l)) -> exists m, packets m = Raise IndexError.
+Proof.
+  intros f l HI Hl Hin.
+  destruct (fstep_wire_cases (fun _ => True) f l HI Hl) as [E|now qm id rest addr port rq rd _ E]; try (intros; exact I).
+  - rewrite E in Hin. destruct Hin.
+  - rewrite E in Hin. apply send_gate_raise in Hin as [Hin|(t & dest & m & _ & Hp & _)]; [|exists m; exact Hp].
+    apply lquery_outs in Hin as (a & _ & Ha). destruct a; try discriminate Ha; destruct Ha.
+Qed.
+
+Example timer_not_pending_raises : snd (fstep fnode_init (FTimer [49] 5353 1000 20 20)) = [ORaise IndexError].
+Proof. reflexivity. Qed.
+
+(* ================================================================================================ *)
+(* 6. the encoder behind the node                                                                    *)
+
+(* every record the responder can emit for a registered service (svc_records: the service-type enumeration pointer,
+   dns_pointer, dns_service, dns_text, the addresses and the NSEC record) is encodable: names of at most 253 characters
+   without lone surrogates and with labels of at most 63 UTF-8 bytes, 16-bit port / weight / priority, 32-bit TTLs,
+   rdata of at most 65535 bytes *)
+Definition RegEncodable (g : registry) : Prop :=
+  forall s, In s (registered g) -> Forall rec_encodable (svc_records s).
+
+Lemma flags_resp_u16 : u16 FLAGS_QR_RESPONSE_AA.
+Proof. unfold u16, FLAGS_QR_RESPONSE_AA, C_FLAGS_QR_RESPONSE, C_FLAGS_AA. change (Z.lor 32768 1024) with 33792. lia. Qed.
+
+Lemma good_answers_enc l : Forall (fun rn : pyrec * Z => rec_encodable (fst rn) /\ snd rn = 0) l -> Forall ans_encodable l.
+Proof.
+  intro H. eapply Forall_impl; [|exact H]. intros [r n] [Hr Hn]. cbn [fst snd] in *. subst n. apply rec_encodable_ans. exact Hr.
+Qed.
+
+(* what the query handler is given: a 16-bit id and questions as they come off the wire *)
+Definition QueryOk (msgs : list qmsg) (id : Z) : Prop :=
+  u16 id /\ forall m, In m msgs -> Forall q_soft (qm_questions m).
+
+(* multicast replies are built from registry records only; a unicast reply may in addition echo the questions *)
+Theorem query_actions_encodable : forall g c msgs id addr port a,
+  RegInv g -> RegEncodable g -> QueryOk msgs id ->
+  In a (handle_assembled_query g c msgs id addr port) ->
+  match a with AUnicast _ _ m => msg_soft m | AMulticast m => msg_encodable m | _ => True end.
+Proof.
+  intros g c msgs id addr port a HI HE [Hid Hqs]. unfold handle_assembled_query. cbv zeta.
+  destruct (async_response g c msgs (negb (port =? C_MDNS_PORT))) as [qa|] eqn:E; [|intros []].
+  destruct msgs as [|m0 ms]; [intros []|].
+  destruct (response_AS rec_encodable g c (m0 :: ms) _ qa HI HE E) as (A1 & A2 & _ & _).
+  intro H. apply in_app_or in H as [H|H]; [|apply in_app_or in H as [H|H]; [|apply in_app_or in H as [H|H]]].
+  - destruct (qa_ucast qa) as [|x u] eqn:Eu; [destruct H|]. destruct H as [<-|[]].
+    pose proof (construct_unicast_good rec_encodable (x :: u) (negb (port =? C_MDNS_PORT)) (qm_questions m0) id A1) as G.
+    cbv zeta in G. destruct G as (Gq & Ga & Gu & Gd & Gf & Gi).
+    unfold msg_soft, hdr_ok. rewrite Gf, Gi, Gu. split; [split; [exact flags_resp_u16|exact Hid]|].
+    split; [destruct Gq as [-> | ->]; [apply Hqs; left; reflexivity|constructor]|].
+    split; [apply good_answers_enc; exact Ga|]. split; [constructor|exact Gd].
+  - destruct (qa_mcast_now qa) as [|x u] eqn:Eu; [destruct H|]. destruct H as [<-|[]].
+    pose proof (construct_multicast_good rec_encodable (x :: u) A2) as G.
+    cbv zeta in G. destruct G as (Gq & Ga & Gu & Gd & Gf & Gi).
+    unfold msg_encodable, hdr_ok. rewrite Gf, Gi, Gu, Gq. split; [split; [exact flags_resp_u16|unfold u16; lia]|].
+    split; [constructor|]. split; [apply good_answers_enc; exact Ga|]. split; [constructor|exact Gd].
+  - destruct (qa_mcast_aggregate qa); [destruct H|]. destruct H as [<-|[]]. exact I.
+  - destruct (qa_mcast_last_second qa); [destruct H|]. destruct H as [<-|[]]. exact I.
+Qed.
+
+(* encoder_contained: (a) an encodable message is always encoded; (b) if only the question names may break the label
+   limit the only possible exception is NamePartTooLong; (c) under RegEncodable every multicast send of a query step is
+   encoded and a unicast send can only fail with NamePartTooLong; (d) so send_gate lets no exception out *)
+Theorem encoder_contained :
+  (forall m, msg_encodable m -> exists ps, packets m = Ok ps) /\
+  (forall m, msg_soft m -> (exists ps, packets m = Ok ps) \/ packets m = Raise NamePartTooLong) /\
+  (forall n now msgs id addr port rq rd, RegInv (n_reg n) -> RegEncodable (n_reg n) -> QueryOk msgs id ->
+     (forall t dest m, In (OSend t dest m) (snd (nstep n (LQuery now msgs id addr port rq rd))) ->
+        match dest with
+        | None => exists ps, packets m = Ok ps
+        | Some _ => (exists ps, packets m = Ok ps) \/ packets m = Raise NamePartTooLong
+        end) /\
+     (forall e, ~ In (ORaise e) (send_gate (snd (nstep n (LQuery now msgs id addr port rq rd)))))).
+Proof.
+  split; [exact packets_encodable|]. split; [exact packets_soft|].
+  intros n now msgs id addr port rq rd HI HE HQ.
+  assert (Hsend : forall t dest m, In (OSend t dest m) (snd (nstep n (LQuery now msgs id addr port rq rd))) ->
+        match dest with
+        | None => exists ps, packets m = Ok ps
+        | Some _ => (exists ps, packets m = Ok ps) \/ packets m = Raise NamePartTooLong
+        end).
+  { intros t dest m Hin. apply lquery_outs in Hin as (a & Ha & Ho).
+    pose proof (query_actions_encodable _ _ _ _ _ _ a HI HE HQ Ha) as Hm.
+    destruct a as [ad po msg|msg|t' s|t' s]; [| |destruct Ho|destruct Ho]; inversion Ho; subst.
+    - apply packets_soft. exact Hm.
+    - apply packets_encodable. exact Hm. }
+  split; [exact Hsend|].
+  intros e Hin. apply send_gate_raise in Hin as [Hin|(t & dest & m & Hin & Hp & Hd)].
+  - apply lquery_outs in Hin as (a & _ & Ha). destruct a; try discriminate Ha; destruct Ha.
+  - specialize (Hsend t dest m Hin). destruct dest as [d|].
+    + destruct Hsend as [[ps Hps]|Hn]; [congruence|]. rewrite Hn in Hp. inversion Hp; subst e.
+      specialize (Hd eq_refl). discriminate Hd.
+    + destruct Hsend as [ps Hps]. congruence.
+Qed.
+
+(* ================================================================================================ *)
+(* 7. no exception escapes                                                                           *)
+
+(* ---- every node label keeps the registry invariant J (Proofs/C03_reg.v; J implies RegInv, bare RegInv is not
+        inductive: C09_register) and the cache invariant, and never takes the silent cache fallbacks ---- *)
+Lemma after_check_J n id k outs now : J (n_reg n) -> J (n_reg (fst (after_check n id k outs now))).
+Proof.
+  intro HJ. unfold after_check. cbv zeta.
+  destruct (last outs CDone); try exact HJ;
+    (unfold register_finish; destruct (reg_add (n_reg n) (ck_svc k)) as [g'|e] eqn:E; cbn [bind fst set_reg n_reg];
+     [eapply J_add; eassumption|exact HJ]).
+Qed.
+
+Lemma after_check_cache n id k outs now : n_cache (fst (after_check n id k outs now)) = n_cache n.
+Proof.
+  unfold after_check. cbv zeta.
+  destruct (last outs CDone); try reflexivity;
+    (destruct (register_finish (n_reg n) k) as [[g' task]|e]; reflexivity).
+Qed.
+
+Lemma unregister_fold_J (l : list svc) : forall g, J g -> J (fold_left (fun g s => reg_remove g (s_key s)) l g).
+Proof. induction l as [|s l IH]; intros g HJ; cbn [fold_left]; [exact HJ|]. apply IH. apply J_remove. exact HJ. Qed.
+
+Lemma nstep_J n l : J (n_reg n) -> J (n_reg (fst (nstep n l))).
+Proof.
+  intro HJ. destruct l; [| |destruct (nstep_LQuery_frame n now msgs id addr port rnd_q rnd_d) as ((E & _) & _); rewrite E; exact HJ|..];
+    cbn [nstep].
+  - exact HJ.
+  - exact HJ.
+  - destruct (async_ready_body (if delayq then n_qd n else n_q n) now) as [q' sent]. destruct delayq; exact HJ.
+  - destruct (check_start (n_cache n) now s allow strict coop) as [[k outs]|e]; [|exact HJ].
+    pose proof (after_check_J n id k outs now HJ) as H. destruct (after_check n id k outs now) as [n' o]. exact H.
+  - destruct (d_get Z.eqb (n_checks n) id) as [k|]; [|exact HJ].
+    destruct (check_turn (n_cache n) now k) as [k' outs].
+    pose proof (after_check_J n id k' outs now HJ) as H. destruct (after_check n id k' outs now) as [n' o]. exact H.
+  - destruct (d_get Z.eqb (n_tasks n) id) as [b|]; [|exact HJ].
+    destruct (bcast_turn b now) as [b' outs]. exact HJ.
+  - destruct (d_get text_eqb (g_services (n_reg n)) key) as [s|]; [|exact HJ].
+    unfold unregister_service. cbv zeta.
+    destruct (intern_list (n_tbl n) _) as [tbl ids]. cbn [fst set_queues set_reg n_reg]. apply J_remove. exact HJ.
+  - unfold update_service, reg_update.
+    destruct (reg_add (reg_remove (n_reg n) (s_key s)) s) as [g'|e] eqn:E; cbn [bind]; [|exact HJ].
+    cbn [fst set_reg n_reg]. eapply J_add; [|exact E]. apply J_remove. exact HJ.
+  - unfold unregister_all.
+    destruct (flat_map (fun s => broadcast_records s (Some 0) true) (all_services (n_reg n))); [exact HJ|].
+    cbn [fst n_reg]. apply unregister_fold_J. exact HJ.
+  - exact HJ.
+  - exact HJ.
+Qed.
+
+(* the cache after a node label: the fallbacks `match i_final .. with Raise _ => old cache` are never taken *)
+Lemma nstep_Inv n l : Inv (n_cache n) ->
+  Inv (n_cache (fst (nstep n l))) /\
+  (forall now answers, l = LResp now answers -> exists c', i_final (ingest now answers (n_cache n)) = Ok c' /\ n_cache (fst (nstep n l)) = c') /\
+  (forall now, l = LPurge now -> exists c', pg_final (purge now (n_cache n)) = Ok c' /\ n_cache (fst (nstep n l)) = c').
+Proof.
+  intro HI.
+  assert (Hother : n_cache (fst (nstep n l)) = n_cache n ->
+            (forall now answers, l <> LResp now answers) -> (forall now, l <> LPurge now) ->
+            Inv (n_cache (fst (nstep n l))) /\
+            (forall now answers, l = LResp now answers -> exists c', i_final (ingest now answers (n_cache n)) = Ok c' /\ n_cache (fst (nstep n l)) = c') /\
+            (forall now, l = LPurge now -> exists c', pg_final (purge now (n_cache n)) = Ok c' /\ n_cache (fst (nstep n l)) = c')).
+  { intros E H1 H2. rewrite E. split; [exact HI|]. split; [intros now answers Hl; destruct (H1 _ _ Hl)|intros now Hl; destruct (H2 _ Hl)]. }
+  destruct l; try (apply Hother; [|intros; discriminate|intros; discriminate]);
+    [| |destruct (nstep_LQuery_frame n now msgs id addr port rnd_q rnd_d) as (_ & E & _); exact E|..]; cbn [nstep].
+  - destruct (ingest_inv now answers (n_cache n) HI) as (c' & E & Hc' & _).
+    cbn [fst set_cache n_cache]. rewrite E. split; [exact Hc'|]. split.
+    + intros now0 answers0 Hl. inversion Hl; subst. exists c'. split; [exact E|reflexivity].
+    + intros now0 Hl. discriminate Hl.
+  - destruct (purge_inv now (n_cache n) HI) as (c' & E & Hc').
+    cbn [fst set_cache n_cache]. rewrite E. split; [exact Hc'|]. split.
+    + intros now0 answers0 Hl. discriminate Hl.
+    + intros now0 Hl. inversion Hl; subst. exists c'. split; [exact E|reflexivity].
+  - destruct (async_ready_body (if delayq then n_qd n else n_q n) now) as [q' sent]. destruct delayq; reflexivity.
+  - destruct (check_start (n_cache n) now s allow strict coop) as [[k outs]|e]; [|reflexivity].
+    pose proof (after_check_cache n id k outs now) as H. destruct (after_check n id k outs now) as [n' o]. exact H.
+  - destruct (d_get Z.eqb (n_checks n) id) as [k|]; [|reflexivity].
+    destruct (check_turn (n_cache n) now k) as [k' outs].
+    pose proof (after_check_cache n id k' outs now) as H. destruct (after_check n id k' outs now) as [n' o]. exact H.
+  - destruct (d_get Z.eqb (n_tasks n) id) as [b|]; [|reflexivity].
+    destruct (bcast_turn b now) as [b' outs]. reflexivity.
+  - destruct (d_get text_eqb (g_services (n_reg n)) key) as [s|]; [|reflexivity].
+    destruct (unregister_service (n_reg n) s) as [[g' task] withdrawn].
+    destruct (intern_list (n_tbl n) withdrawn) as [tbl ids]. reflexivity.
+  - destruct (update_service (n_reg n) s) as [[g' task]|e]; reflexivity.
+  - destruct (unregister_all (n_reg n)) as [g' rs]. destruct rs; reflexivity.
+  - reflexivity.
+  - reflexivity.
+Qed.
+
+(* ---- the invariants along a run ---- *)
+Definition QOk (x : qmsg * Z) : Prop := u16 (snd x) /\ Forall q_soft (qm_questions (fst x)).
+
+(* every DNSIncoming kept for a deferred packet was decoded from a real datagram *)
+Definition MsgsOk (f : fnode) : Prop := forall k x, In (k, x) (f_msgs f) -> QOk x.
+
+Definition Good (f : fnode) : Prop :=
+  FInv f /\ MsgsOk f /\ J (n_reg (f_node f)) /\ Inv (n_cache (f_node f)) /\ RegEncodable (n_reg (f_node f)).
+
+Lemma Good_init : Good fnode_init.
+Proof.
+  split; [exact FInv_init|]. split; [intros k x []|]. split; [exact J_empty|]. split; [apply inv_empty|].
+  intros s [].
+Qed.
+
+Lemma respond_node f ls' msgs' a port packets now rq rd :
+  f_node (fst (respond f ls' msgs' a port packets now rq rd)) = f_node f \/
+  exists nl, f_node (fst (respond f ls' msgs' a port packets now rq rd)) = fst (nstep (f_node f) nl).
+Proof.
+  unfold respond. destruct (flat_map _ packets) as [|[q i] rest]; [left; reflexivity|].
+  right. eexists. destruct (nstep (f_node f) _) as [n' outs] eqn:E. cbn [fst f_node]. rewrite E. reflexivity.
+Qed.
+
+Lemma fstep_node f l :
+  f_node (fst (fstep f l)) = f_node f \/ exists nl, f_node (fst (fstep f l)) = fst (nstep (f_node f) nl).
+Proof.
+  destruct l as [data addr port now tc rq rd|addr port now rq rd|nl]; cbn [fstep].
+  - destruct (Z.of_nat (length data) >? C_MAX_MSG_ABSOLUTE); [left; reflexivity|].
+    destruct (is_duplicate (f_ls f) data now); [left; reflexivity|].
+    destruct (m_escaped (parse data now None FRAMES)); [left; reflexivity|].
+    destruct (datagram _ _ _ _ _ _) as [ls' o].
+    destruct o; try (left; reflexivity).
+    + right. exists (LResp now (m_answers (parse data now None FRAMES))). reflexivity.
+    + apply respond_node.
+  - destruct (respond_query (f_ls f) None addr) as [ls' o].
+    destruct o; try (left; reflexivity). apply respond_node.
+  - right. exists nl. destruct (nstep (f_node f) nl) as [n' outs]. reflexivity.
+Qed.
+
+Lemma fstep_msgs f l :
+  f_msgs (fst (fstep f l)) = f_msgs f \/
+  exists data addr port now tc rq rd, l = FDatagram data addr port now tc rq rd /\
+    f_msgs (fst (fstep f l)) = d_set bytes_eqb (f_msgs f) (mkey addr data)
+                                 (qmsg_of (parse data now None FRAMES) now, m_id (parse data now None FRAMES)).
+Proof.
+  destruct l as [data addr port now tc rq rd|addr port now rq rd|nl]; cbn [fstep].
+  - destruct (Z.of_nat (length data) >? C_MAX_MSG_ABSOLUTE); [left; reflexivity|].
+    destruct (is_duplicate (f_ls f) data now); [left; reflexivity|].
+    destruct (m_escaped (parse data now None FRAMES)); [left; reflexivity|].
+    destruct (datagram _ _ _ _ _ _) as [ls' o].
+    destruct o; try (left; reflexivity).
+    + right. exists data, addr, port, now, tc, rq, rd. split; reflexivity.
+    + right. exists data, addr, port, now, tc, rq, rd. split; [reflexivity|]. apply (proj2 (respond_ls _ _ _ _ _ _ _ _ _)).
+  - destruct (respond_query (f_ls f) None addr) as [ls' o].
+    destruct o; try (left; reflexivity). left. apply (proj2 (respond_ls _ _ _ _ _ _ _ _ _)).
+  - left. destruct (nstep (f_node f) nl) as [n' outs]. reflexivity.
+Qed.
+
+Lemma parse_QOk data now : Forall is_byte data ->
+  QOk (qmsg_of (parse data now None FRAMES) now, m_id (parse data now None FRAMES)).
+Proof.
+  intro Hb. split; cbn [fst snd qm_questions qmsg_of]; [apply parse_id_u16|apply parse_questions_soft]; exact Hb.
+Qed.
+
+(* the labels of a run: real datagrams, pending timers, and node labels that keep the registry encodable
+   (e.g. only encodable services are registered / renamed to) *)
+Definition label_ok (f : fnode) (l : flabel) : Prop :=
+  match l with
+  | FNode nl => RegEncodable (n_reg (fst (nstep (f_node f) nl)))
+  | _ => wire_label f l
+  end.
+
+Fixpoint run_ok (f : fnode) (ls : list flabel) : Prop :=
+  match ls with
+  | [] => True
+  | l :: rest => label_ok f l /\ run_ok (fst (fstep f l)) rest
+  end.
+
+Theorem Good_step : forall f l, Good f -> label_ok f l -> Good (fst (fstep f l)).
+Proof.
+  intros f l (H1 & H2 & H3 & H4 & H5) Hl.
+  split; [apply FInv_step; exact H1|]. split.
+  { destruct (fstep_msgs f l) as [E|(data & addr & port & now & tc & rq & rd & -> & E)]; unfold MsgsOk; rewrite E; [exact H2|].
+    intros k x Hin. apply bset_In in Hin as [Hin| ->]; [exact (H2 k x Hin)|]. apply parse_QOk. exact Hl. }
+  assert (Hreg : J (n_reg (f_node (fst (fstep f l)))) /\ Inv (n_cache (f_node (fst (fstep f l))))).
+  { destruct (fstep_node f l) as [E|[nl E]]; rewrite E; [split; assumption|].
+    split; [apply nstep_J; exact H3|apply nstep_Inv; exact H4]. }
+  destruct Hreg as [R1 R2]. split; [exact R1|]. split; [exact R2|].
+  destruct l as [data addr port now tc rq rd|addr port now rq rd|nl].
+  - destruct (datagrams_touch_only f (FDatagram data addr port now tc rq rd) I) as (E & _). rewrite E. exact H5.
+  - destruct (datagrams_touch_only f (FTimer addr port now rq rd) I) as (E & _). rewrite E. exact H5.
+  - cbn [label_ok] in Hl. cbn [fstep]. destruct (nstep (f_node f) nl) as [n' outs]. exact Hl.
+Qed.
+
+Lemma Good_run : forall ls f, Good f -> run_ok f ls -> Good (fstate f ls).
+Proof.
+  induction ls as [|l ls IH]; intros f HG Hr; [exact HG|].
+  destruct Hr as [Hl Hr]. cbn [fstate]. apply IH; [apply Good_step; assumption|exact Hr].
+Qed.
+
+(* one datagram / pending-timer label on a good state lets no exception out *)
+Theorem wire_step_silent : forall f l, Good f -> wire_label f l -> forall e, ~ In (ORaise e) (snd (fstep f l)).
+Proof.
+  intros f l (H1 & H2 & H3 & H4 & H5) Hl e Hin.
+  destruct (fstep_wire_cases QOk f l H1 Hl H2) as [E|now qm id rest addr port rq rd HQ E].
+  - intros data addr port now tc rq rd ->. apply parse_QOk. exact Hl.
+  - rewrite E in Hin. destruct Hin.
+  - rewrite E in Hin.
+    destruct encoder_contained as (_ & _ & Hc).
+    assert (HQO : QueryOk (qm :: map fst rest) id).
+    { inversion HQ as [|x l0 [Hx1 Hx2] Hrest]; subst x l0. cbn [fst snd] in Hx1, Hx2. split; [exact Hx1|].
+      intros m [<-|Hm]; [exact Hx2|]. apply in_map_iff in Hm as (x & <- & Hx).
+      rewrite Forall_forall in Hrest. apply (Hrest x Hx). }
+    destruct (Hc (f_node f) now (qm :: map fst rest) id addr port rq rd (J_RegInv _ H3) H5 HQO) as [_ Hno].
+    exact (Hno e Hin).
+Qed.
+
+(* the main theorem *)
+Theorem no_exception_escapes : forall ls, run_ok fnode_init ls ->
+  let f := fstate fnode_init ls in
+  (FInv f /\ RegInv (n_reg (f_node f)) /\ Inv (n_cache (f_node f)) /\ RegEncodable (n_reg (f_node f))) /\
+  forall l, wire_label f l ->
+    let f' := fst (fstep f l) in
+    (forall e, ~ In (ORaise e) (snd (fstep f l))) /\
+    FInv f' /\ RegInv (n_reg (f_node f')) /\ Inv (n_cache (f_node f')) /\ RegEncodable (n_reg (f_node f')) /\
+    n_reg (f_node f') = n_reg (f_node f).
+Proof.
+  intros ls Hr. cbv zeta.
+  pose proof (Good_run ls fnode_init Good_init Hr) as HG.
+  split.
+  { destruct HG as (H1 & _ & H3 & H4 & H5). split; [exact H1|]. split; [apply (J_RegInv _ H3)|]. split; assumption. }
+  intros l Hl. split; [apply wire_step_silent; assumption|].
+  assert (Hl' : label_ok (fstate fnode_init ls) l) by (destruct l; [exact Hl|exact Hl|destruct Hl]).
+  destruct (Good_step _ l HG Hl') as (H1 & _ & H3 & H4 & H5).
+  split; [exact H1|]. split; [apply J_RegInv; exact H3|]. split; [exact H4|]. split; [exact H5|].
+  apply (datagrams_touch_only (fstate fnode_init ls) l). destruct l; [exact I|exact I|destruct Hl].
+Qed.
+
+(* ... and along the run the model's silent fallbacks `match i_final .. with Raise _ => old cache` (LResp, LPurge) are
+   never taken: ingest and purge always return Ok *)
+Theorem fallbacks_never_taken : forall ls, run_ok fnode_init ls ->
+  let c := n_cache (f_node (fstate fnode_init ls)) in
+  (forall now answers, exists c', i_final (ingest now answers c) = Ok c' /\ Inv c') /\
+  (forall now, exists c', pg_final (purge now c) = Ok c' /\ Inv c').
+Proof.
+  intros ls Hr. cbv zeta. destruct (Good_run ls fnode_init Good_init Hr) as (_ & _ & _ & H4 & _). split.
+  - intros now answers. destruct (ingest_inv now answers _ H4) as (c' & E & Hc & _). exists c'. split; assumption.
+  - intros now. apply purge_inv. exact H4.
+Qed.
+
+Print Assumptions oversize_ignored.
+Print Assumptions duplicate_ignored.
+Print Assumptions at_limit_processed.
+Print Assumptions decoder_contained.
+Print Assumptions datagrams_touch_only.
+Print Assumptions FInv_init.
+Print Assumptions FInv_step.
+Print Assumptions no_index_error.
+Print Assumptions encoder_contained.
+Print Assumptions query_actions_encodable.
+Print Assumptions wire_step_silent.
+Print Assumptions no_exception_escapes.
+Print Assumptions fallbacks_never_taken.
